@@ -56,6 +56,12 @@ def jobs(tier):
                                unit=unit))
     add(U + 'sample', dict(d=1, npm=2, sizes=[2, 2, 2], n=1), block=1)
     add(U + 'trim', dict(d=1, npm=2, sizes=[2, 3, 2], cache=1))
+    # "after a checkpoint round trip": member / volume records keep their
+    # order and counters (field-level harness of C09)
+    add('harness.bound_io:io_fields', dict(kind='Union', d=1, unit=True,
+                                           members=['ell'] * 12, cache=1))
+    add('harness.bound_io:io', dict(kind='Union', d=1, unit=True,
+                                    members=['ell'], cache=1, unroll=3))
     add(N + 'nb_sample', dict(d=1, n=1, cache=1), block=B)
     add(N + 'nb_sample', dict(d=1, n=2, cache=1), block=B)
     add(N + 'nb_sample', dict(d=1, n=1, cache=0, n_neural=2), block=B)
